@@ -266,3 +266,23 @@ Proof.
   end.
   intros B. f_equal. exact B.
 Qed.
+
+(** ** a comment block in front of anything is one comment token, and the text behind it is lexed as if it stood alone
+    (apart from the counters and the previous-token memory, which a comment does not change for the sign decision:
+    a comment is not an operand) *)
+Lemma hash_tables : (N.eqb c_hash c_minus || is_digit c_hash) = false /\ assoc_N c_hash single_ops = None /\ assoc_N c_hash double_ops = None.
+Proof. vm_compute. repeat split. Qed.
+
+Theorem comment_in_front c rest line file prev tk l :
+  consume (c_hash :: c) line file prev = Ok (Some tk, S (length c), l) ->
+  consume (c_hash :: c ++ rest) line file prev = Ok (Some tk, S (length c), l) /\ t_kind tk = TComment.
+Proof.
+  intros H. destruct hash_tables as (T1 & T2 & T3). split.
+  - pose proof (consume_local (c_hash :: c) line file prev tk (S (length c)) l H rest) as L.
+    change (firstn (S (length c)) (c_hash :: c)) with (c_hash :: firstn (length c) c) in L. rewrite firstn_all in L.
+    apply L. unfold nofuse. fold (is_digit c_hash). rewrite T1, T2, T3. change (N.eqb c_hash c_hash) with true. exact I.
+  - unfold consume in H. fold (is_digit c_hash) in H. rewrite T1, T2, T3 in H. change (N.eqb c_hash c_hash) with true in H. cbv iota in H.
+    match type of H with context [comment_scan ?a ?b] => destruct (comment_scan a b) as [[m l0]|] eqn:E end.
+    + inversion H; subst. reflexivity.
+    + discriminate H.
+Qed.
